@@ -180,7 +180,7 @@ _SIM_RE = re.compile(r"^The number of states generated: (\d+)")
 
 
 def run_tlc(module, cfg, name, workers=8, timeout=900, env=None, simulate=None, depth=None, xmx="8g",
-            deque=False, replay_to=None, coverage=True, keep_replay=True, sim_seed=None, defs=None):
+            deque=False, replay_to=None, coverage=True, keep_replay=True, sim_seed=None, defs=None, libs=()):
     """Run TLC on spec/<module>.tla with the given config text. REPLAY lines are parsed into result.replay
     (and/or streamed to the file replay_to as ndjson)."""
     ensure_dirs()
@@ -211,7 +211,7 @@ def run_tlc(module, cfg, name, workers=8, timeout=900, env=None, simulate=None, 
     e = dict(os.environ, JAVA_TOOL_OPTIONS=jopts)
     if env:
         e.update(env)
-    cmd = ["java", "-XX:+UseParallelGC", "-Xmx" + xmx, "-DTLA-Library=" + SPEC, "-cp",
+    cmd = ["java", "-XX:+UseParallelGC", "-Xmx" + xmx, "-DTLA-Library=" + os.pathsep.join([SPEC] + list(libs)), "-cp",
            "/opt/veriftools/tla/tla2tools.jar:/opt/veriftools/tla/CommunityModules-deps.jar", "tlc2.TLC",
            "-workers", str(workers), "-metadir", os.path.join(wd, "md"), "-cleanup", "-noGenerateSpecTE",
            "-config", cfgp]
